@@ -130,12 +130,25 @@ func makeFile(dir, shape, text string) string {
 	return p
 }
 
-func classifyLoadErr(err error) string {
+func classifyLoadErr(err error, path string) string {
 	if err == nil {
 		return "loads"
 	}
 	if stderrors.Is(err, os.ErrNotExist) {
 		return "notfound"
+	}
+	// "reported as a parse error": what the user is told is what the package's own parse-error report for this file says
+	// (and likewise for not-found); anything else is some other error, whatever words it contains
+	ufm := apperrors.GetUserFriendlyMessage(err)
+	if ufm == apperrors.GetUserFriendlyMessage(apperrors.NewDatabaseParseError(path, err)) {
+		return "parse"
+	}
+	if ufm == apperrors.GetUserFriendlyMessage(apperrors.NewDatabaseNotFoundError(path, err)) {
+		return "notfound"
+	}
+	var typed *apperrors.AppError
+	if stderrors.As(err, &typed) {
+		return "othererror"
 	}
 	msg := strings.ToLower(err.Error() + " " + apperrors.GetUserFriendlyMessage(err))
 	var ae *apperrors.AppError
@@ -372,7 +385,7 @@ func totalChild(args []string) int {
 	ev := &totEv{Op: "load", Shape: shape, Text: text}
 	ev.Outcome, ev.Note, ev.MS = guarded(func() { db, lerr = database.LoadDatabase(p) })
 	if ev.Outcome == "returned" {
-		ev.Outcome = classifyLoadErr(lerr)
+		ev.Outcome = classifyLoadErr(lerr, p)
 		if lerr != nil {
 			ev.Note = lerr.Error()
 			if len(ev.Note) > 200 {
